@@ -189,7 +189,9 @@ Proof.
       * destruct (eval_block cx f en b []) as [[bv e2]| | | |] eqn:Eb; try discriminate.
         done_ok H. cbn [snd]. eapply IHb; eassumption.
       * done_ok H. apply keeps_refl; assumption.
-    + discriminate.
+    + (* SDump *)
+      destruct (dump_args (eval_expr cx f en) args) as [ds| | | |]; try discriminate.
+      done_ok H. apply keeps_refl; assumption.
   - (* eval_block *)
     intros en ss acc v en' Hne H. cbn [eval_block] in H. destruct ss as [|s ss].
     + done_ok H. apply keeps_refl; assumption.
